@@ -217,6 +217,11 @@ class Interval:
                                     return Interval(expr.Const(0), normalize_constant(self.end ** expr.Const(2)), \
                                                     False, self.right_open)
                 return Interval.ropen(expr.Const(0), expr.POS_INF)
+            elif eval_expr(other.start) > 2 and eval_expr(other.start) % 2 == 0 and eval_expr(self.start) < 0:
+                # Even power of a base that can be negative: x ^ (2 * k) = (x ^ 2) ^ k,
+                # where x ^ 2 is nonnegative and the k'th power is increasing on it.
+                sq = self ** Interval.point(expr.Const(2))
+                return sq ** Interval.point(expr.Const(int(eval_expr(other.start)) // 2))
             elif eval_expr(other.start) > 0:
                 # TODO: distinguish by parity of denominator        
                 if self.start == expr.NEG_INF:
@@ -234,15 +239,29 @@ class Interval:
         else:
             if eval_expr(self.start) > 0 or eval_expr(self.start) == 0 and self.left_open:
                 if eval_expr(other.start) > 0:
-                    r = eval_expr(self.end) ** eval_expr(other.end)
-                    l = eval_expr(self.start) ** eval_expr(other.start)
-                    if r != float('inf'):
-                        r = normalize_constant(self.end ** other.end)
-                        l = normalize_constant(self.start ** other.start)
-                        return Interval(l, r, self.left_open or other.left_open, self.right_open or other.right_open)
+                    if eval_expr(self.start) >= 1:
+                        # x ^ y is increasing in both x and y
+                        r = eval_expr(self.end) ** eval_expr(other.end)
+                        if r != float('inf'):
+                            r = normalize_constant(self.end ** other.end)
+                            l = normalize_constant(self.start ** other.start)
+                            return Interval(l, r, self.left_open or other.left_open, self.right_open or other.right_open)
+                        else:
+                            l = normalize_constant(self.start ** other.start)
+                            return Interval(l, expr.POS_INF, self.left_open or other.left_open, True)
+                    elif not self.end.is_inf() and not other.end.is_inf():
+                        # For a base below 1, x ^ y is decreasing in y: the extreme
+                        # values are among the four corners.
+                        corners = [(x ** y, eval_expr(x) ** eval_expr(y), xo or yo)
+                                   for x, xo in ((self.start, self.left_open), (self.end, self.right_open))
+                                   for y, yo in ((other.start, other.left_open), (other.end, other.right_open))]
+                        lo = min(corners, key=lambda c: c[1])
+                        hi = max(corners, key=lambda c: c[1])
+                        return Interval(normalize_constant(lo[0]), normalize_constant(hi[0]), lo[2], hi[2])
+                    elif eval_expr(self.end) > 1:
+                        return Interval.open(expr.Const(0), expr.POS_INF)
                     else:
-                        l = normalize_constant(self.start ** other.start)
-                        return Interval(l, expr.POS_INF, self.left_open or other.left_open, True)
+                        return Interval.lopen(expr.Const(0), expr.Const(1))
             return Interval.open(expr.NEG_INF, expr.POS_INF)
 
     def less(self, other: "Interval") -> bool:
